@@ -89,11 +89,50 @@ fn bucket(n: usize) -> &'static str {
     }
 }
 
-fn run_case(rec: &mut Recorder, seed: u64, idx: u64, thorough: bool) {
+/// Hand-built scenarios (kept in corpus/C17): independent of the random generator.
+///   midseg  — one 131-command segment, nothing known: the first response stops inside the segment;
+///             in the second session the first poll gets a buffer that is too small
+///   syncend — a short chain; the poll that would answer `SyncEnd` first gets a 4-byte buffer
+#[derive(Clone, Default)]
+struct Scenario {
+    shape: Option<Shape>,
+    b_batch: Option<usize>,
+    /// buffer sizes of the first polls of the disturbed session
+    sizes: Vec<Option<usize>>,
+}
+
+fn scenario(name: &str) -> Option<Scenario> {
+    match name {
+        "midseg" => Some(Scenario { shape: Some(Shape::Chain { len: 130 }), b_batch: Some(400), sizes: vec![Some(64), None, Some(2000), None] }),
+        "syncend" => Some(Scenario { shape: Some(Shape::Chain { len: 5 }), b_batch: Some(400), sizes: vec![None, Some(4), None] }),
+        _ => None,
+    }
+}
+
+fn run_case(rec: &mut Recorder, seed: u64, idx: u64, thorough: bool, scen: Option<&str>) {
     let mut rng = case_rng(seed, idx);
     rec.begin_case();
-    rec.line(format!("case c17 seed={seed} idx={idx} thorough={}", thorough as u8), "ok");
-    let shape = pick_shape(&mut rng, thorough);
+    let sc = match scen {
+        Some(name) => {
+            rec.line(format!("case c17 scenario={name}"), "ok");
+            match scenario(name) {
+                Some(s) => s,
+                None => {
+                    rec.oracle_fail(format!("unknown scenario {name}"));
+                    return;
+                }
+            }
+        }
+        None => {
+            rec.line(format!("case c17 seed={seed} idx={idx} thorough={}", thorough as u8), "ok");
+            Scenario::default()
+        }
+    };
+    let scripted = sc.shape.is_some();
+    let shape = match &sc.shape {
+        Some(s) => s.clone(),
+        None => pick_shape(&mut rng, thorough),
+    };
     rec.count(&format!("shape:{}", shape_name(&shape)));
     let dag = sk::build(&mut rng, &shape);
     let cmds = gk::realize(&dag, rng.next_u64());
@@ -106,13 +145,13 @@ fn run_case(rec: &mut Recorder, seed: u64, idx: u64, thorough: bool) {
 
     // responder's graph B and requester's graph A: parents-closed subsets of the universe
     let all: BTreeSet<usize> = (0..n).collect();
-    let bset = if rng.chance(2, 3) {
+    let bset = if scripted || rng.chance(2, 3) {
         all.clone()
     } else {
         let tips = rng.range(1, 8) as usize;
         sk::closed_subset(&mut rng, &dag, tips, n)
     };
-    let aset: BTreeSet<usize> = match rng.below(8) {
+    let aset: BTreeSet<usize> = match if scripted { 0 } else { rng.below(8) } {
         0 => BTreeSet::new(),
         1 => [0usize].into_iter().collect(),
         2 => bset.clone(),
@@ -123,7 +162,7 @@ fn run_case(rec: &mut Recorder, seed: u64, idx: u64, thorough: bool) {
             sk::closed_subset(&mut rng, &dag, tips, lim)
         }
     };
-    let b_batch = *rng.pick(&[1usize, 3, 10, 40, 150, 400]);
+    let b_batch = sc.b_batch.unwrap_or(*rng.pick(&[1usize, 3, 10, 40, 150, 400]));
     let a_batch = *rng.pick(&[1usize, 4, 25, 200]);
     let mut rb = match sk::load(&mut rng, &cmds, &bset, b_batch) {
         Ok(r) => r,
@@ -158,7 +197,7 @@ fn run_case(rec: &mut Recorder, seed: u64, idx: u64, thorough: bool) {
     rec.count(&format!("B.maxseg:{}", bucket(dump.segs.iter().map(|s| s.cmds.len()).max().unwrap_or(0))));
 
     // the `have` sample
-    let mode = rng.below(10);
+    let mode = if scripted { 9 } else { rng.below(10) };
     let mut have: Vec<Address> = vec![];
     // what the requester is known to hold (node indexes): base of the ingest check
     let mut base: BTreeSet<usize> = BTreeSet::new();
@@ -401,7 +440,9 @@ fn run_case(rec: &mut Recorder, seed: u64, idx: u64, thorough: bool) {
                 rec.oracle_fail("session with failed polls does not end");
                 break;
             }
-            let size = if rng.chance(2, 5) {
+            let size = if polls <= sc.sizes.len() {
+                sc.sizes[polls - 1]
+            } else if rng.chance(2, 5) {
                 Some(*rng.pick(&[0usize, 1, 8, 20, 25, 30, 40, 64, 100, 300, 1500, 6000, 20000]))
             } else {
                 None
@@ -470,15 +511,17 @@ fn main() {
                 let mut seed = 1u64;
                 let mut idx = 0u64;
                 let mut th = false;
+                let mut scen: Option<String> = None;
                 for kv in rest.split(' ') {
                     match kv.split_once('=') {
                         Some(("seed", v)) => seed = v.parse().unwrap_or(1),
                         Some(("idx", v)) => idx = v.parse().unwrap_or(0),
                         Some(("thorough", v)) => th = v == "1",
+                        Some(("scenario", v)) => scen = Some(v.to_string()),
                         _ => {}
                     }
                 }
-                run(&mut rec, seed, idx, th);
+                run(&mut rec, seed, idx, th, scen.as_deref());
                 ran = true;
             }
         }
@@ -491,21 +534,24 @@ fn main() {
     }
     let thorough = args.thorough() || args.search;
     let cases = args.budget(70, 700);
+    for name in ["midseg", "syncend"] {
+        run(&mut rec, args.seed, 0, thorough, Some(name));
+    }
     for idx in 0..cases as u64 {
-        run(&mut rec, args.seed, idx, thorough);
+        run(&mut rec, args.seed, idx, thorough, None);
     }
     rec.finish(args.seed, &args.tier);
 }
 
-fn run(rec: &mut Recorder, seed: u64, idx: u64, thorough: bool) {
+fn run(rec: &mut Recorder, seed: u64, idx: u64, thorough: bool, scen: Option<&str>) {
     // a panic inside the real code is a finding of its own; record it and go on
-    let r = std::panic::catch_unwind(std::panic::AssertUnwindSafe(|| run_case(rec, seed, idx, thorough)));
+    let r = std::panic::catch_unwind(std::panic::AssertUnwindSafe(|| run_case(rec, seed, idx, thorough, scen)));
     if let Err(e) = r {
         let msg = e
             .downcast_ref::<&str>()
             .map(|s| s.to_string())
             .or_else(|| e.downcast_ref::<String>().cloned())
             .unwrap_or_else(|| "panic".into());
-        rec.panics.push(format!("case c17 seed={seed} idx={idx} thorough={}: {msg}", thorough as u8));
+        rec.panics.push(format!("case c17 seed={seed} idx={idx} thorough={} scenario={scen:?}: {msg}", thorough as u8));
     }
 }
